@@ -47,6 +47,10 @@ type TransSpec struct {
 	// function only indexes, measures, ranges over or passes on in the same way, and whose elements it writes, is returned
 	// to the caller (after the receiver, before the results) and the caller rebinds the variable / field it passed.
 	InOut bool
+	// [ext:T03] (gen/trans_ext03.go) -------------------------------------------------------------------------------
+	Ext03  bool                // struct-typed / pointer-to-struct / embedded fields, struct twins (type B A), composite literals, unsafe reads, slice out-params
+	Ifaces map[string][]string // interface -> the translated structs whose pointers implement it (a sum type; result position only)
+	Heads  []string            // functions of which only the leading simple declarations are translated: g_<Func>_head
 }
 
 type unsupported struct{ msg string }
@@ -75,9 +79,10 @@ type gtype struct {
 	str   bool        // [ext:T20] kSlice that is a Go string (immutable bytes)
 	arr   int64       // [ext:T20] kSlice that is a Go array [arr]T (isArr)
 	isArr bool
-	nest  bool     // [ext:T08] kSlice whose elements are slices of integers: list (list Z)
-	opq   string   // [ext:T08] kOpaque: the Record field that is its type
-	fn    *funcSig // [func] kFunc
+	ifc   *ifaceInfo // [ext:T03] kIface
+	nest  bool       // [ext:T08] kSlice whose elements are slices of integers: list (list Z)
+	opq   string     // [ext:T08] kOpaque: the Record field that is its type
+	fn    *funcSig   // [func] kFunc
 }
 
 func (g gtype) coq() string {
@@ -94,6 +99,8 @@ func (g gtype) coq() string {
 		return "list Z"
 	case kStruct:
 		return g.st.name
+	case kIface: // [ext:T03]
+		return g.ifc.name
 	case kOpaque: // [ext:T08]
 		return "(" + g.opq + " ext')"
 	case kFunc:
@@ -147,6 +154,7 @@ type funcInfo struct {
 	ignoredRecv     bool                 // a receiver of an untranslatable type that the body never mentions
 	frag            *fragInfo            // a loop fragment of a function instead of a whole function
 	outs07          []int                // [ext:T07] indices of the slice parameters written in place: their new contents are returned
+	nExtra03        int                  // [ext:T03] extra parameters (memory read through unsafe.Pointer)
 	// [ext:T08]
 	foreign bool  // calls a foreign function (directly or through calls): takes `ext' : Foreign`
 	outs    []int // slice parameters that are output buffers
@@ -168,6 +176,7 @@ type Translator struct {
 	seq     *seqState       // [seq] sequential reading of atomics, places, timed tails (trans_seq.go)
 	ext20                   // [ext:T20] state of gen/trans_ext20.go
 	ext07                   // [ext:T07] state of gen/trans_ext07.go
+	ext03                   // [ext:T03] state of gen/trans_ext03.go
 	ext08                   // [ext:T08] state of gen/trans_ext08.go
 	inOut   bool            // [func] TransSpec.InOut
 	ext15                   // [ext:T15] state of gen/trans_ext15.go
@@ -178,6 +187,9 @@ type stubImporter struct{}
 func (stubImporter) Import(path string) (*types.Package, error) {
 	if p := seqStubPackage(path); p != nil { // [seq] sync/atomic, runtime, time: typed stubs
 		return p, nil
+	}
+	if path == "unsafe" { // [ext:T03] unsafe.Pointer is typed by go/types itself
+		return types.Unsafe, nil
 	}
 	if p := import08(path); p != nil { // [ext:T08] TransSpec.Stubs, packages of the translated module
 		return p, nil
@@ -280,6 +292,9 @@ func (t *Translator) typeOf(ty types.Type, n ast.Node) gtype {
 	case *types.Named:
 		if si := t.structs[x.Origin().Obj()]; si != nil {
 			return gtype{k: kStruct, st: si}
+		}
+		if g, ok := t.iface03(x); ok { // [ext:T03] an interface listed in TransSpec.Ifaces
+			return g
 		}
 		if x.Obj().Pkg() == nil && x.Obj().Name() == "error" { // [ext:T20]
 			return gtype{k: kErr}
@@ -388,7 +403,7 @@ func Translate(repo string, spec TransSpec) (out string, err error) {
 		t.structs[obj] = si
 		for i := 0; i < st.NumFields(); i++ {
 			f := st.Field(i)
-			if f.Embedded() {
+			if f.Embedded() && !spec.Ext03 { // [ext:T03] an embedded translated struct is a field named like its type
 				t.fail(nil, "embedded field %s of struct %s", f.Name(), sn)
 			}
 			ft := func() (g gtype) {
@@ -399,7 +414,7 @@ func Translate(repo string, spec TransSpec) (out string, err error) {
 				}()
 				return t.typeOf(f.Type(), nil)
 			}()
-			if ft.k == kStruct {
+			if ft.k == kStruct && !spec.Ext03 { // [ext:T03]
 				t.fail(nil, "struct-typed field %s.%s", sn, f.Name())
 			}
 			si.fields = append(si.fields, f.Name())
@@ -426,6 +441,7 @@ func Translate(repo string, spec TransSpec) (out string, err error) {
 		}
 		sb.WriteString(si.emit())
 	}
+	sb.WriteString(t.setup03(tpkg, spec)) // [ext:T03] struct twins, interface sums
 	// functions: roots, then callees discovered by the analysis
 	for _, fn := range spec.Funcs {
 		if t.addFunc(fn) == nil {
@@ -433,6 +449,7 @@ func Translate(repo string, spec TransSpec) (out string, err error) {
 		}
 	}
 	t.addFrags20(spec) // [ext:T20]
+	t.addHeads03(spec) // [ext:T03] leading declarations of functions that cannot be translated as a whole
 	t.analyse()
 	var fb strings.Builder // [ext:T20] functions first (they register the constants they use), constants emitted before them
 	for _, fi := range t.order {
@@ -598,6 +615,12 @@ func (t *Translator) rootObj(e ast.Expr) (types.Object, bool) {
 			e, deep = x.X, true
 		case *ast.StarExpr:
 			e, deep = x.X, true
+		case *ast.CallExpr: // [ext:T03] a conversion (*T)(p) names the storage of p
+			a := t.convArg03(x)
+			if a == nil {
+				return nil, deep
+			}
+			e = a
 		case *ast.Ident:
 			if o := t.info.Uses[x]; o != nil {
 				return o, deep
